@@ -1051,6 +1051,33 @@ def nested_sized_payload(rng):
     return out
 
 
+def bitfield_packets(rng, n):
+    """Packets made of bit-fields only (scalars, fixed values, reserved bits), in groups of every width from 8 to 64
+    bits with fields at every offset — the shapes on which a back end's shift / mask / cast arithmetic is decided.
+    Returns PDL texts (one packet each, both byte orders)."""
+    out = []
+    for i in range(n):
+        endian = rng.choice(["little", "big"])
+        fields, k = [], 0
+        for g in range(rng.randint(1, 3)):
+            total = 8 * rng.choice([1, 2, 3, 4, 4, 5, 6, 7, 8, 8])
+            left = total
+            while left > 0:
+                w = rng.choice([1, 2, 3, 4, 5, 7, 8, 9, 11, 16, 24, 29, 31, 32, 33, 40, 48, 56, 63, 64, left, left])
+                w = max(1, min(w, left))
+                r = rng.random()
+                if r < 0.12:
+                    fields.append("_reserved_ : %d" % w)
+                elif r < 0.25 and w <= 31:
+                    fields.append("_fixed_ = %d : %d" % (rng.randrange(1 << min(w, 30)), w))
+                else:
+                    fields.append("f%d : %d" % (k, w))
+                    k += 1
+                left -= w
+        out.append("%s_endian_packets\n\npacket Bf%d {\n  %s\n}\n" % (endian, i, ",\n  ".join(fields)))
+    return out
+
+
 def wide(rng, n=3):
     """Bit-field groups and array elements wider than 32 bits (40 / 48 / 56 / 64), with fields that straddle bits
     31 / 32 and 8-bit boundaries, scalars and enums; both byte orders.  The main generator prefers the four
